@@ -131,6 +131,18 @@ CLAIMED = {
          "metrics cache is exercised by the thread variant but not yet modelled as its own TLA+ module.",
     technique="TLA+ life-cycle model checked by TLC; TLC-generated reconfigure histories replayed on a reused instance; trace validation of draw equality",
     design="4/C12"),
+ "C11": dict(
+    category="model_checking",
+    text="The variation-store builder is specified as a state machine whose optimiser is left open; its contract (every "
+         "added delta set is retrievable, region by region, through the index it is mapped to) and the reader semantics "
+         "(row decoding with word/long columns, lookup, tent scalars as exact rationals) are written in Ivs.tla. TLC "
+         "enumerates all short histories over boundary delta alphabets; every history is compiled by "
+         "VariationStoreBuilder in both modes, read back raw and judged by IvsTrace, including compute_delta at probe "
+         "locations; fvar normalisation and avar maps are validated as relations on recorded samples.",
+    note="Trusted: TLC, read-fonts' raw getters for the store's fields. Coordinates restricted to multiples of 0.25; "
+         "HVAR metrics through skrifa not covered yet.",
+    technique="TLA+ builder contract + reader semantics; TLC-enumerated histories replayed on the builder; trace validation of compiled stores and numeric relations",
+    design="4/C11"),
 }
 
 NOT_APPLICABLE = {
